@@ -34,6 +34,10 @@ Fixpoint others (items : list litem) (used : list string) (ia idc : nat) : list 
   | LTop _ _ :: rest => others rest used ia idc
   end.
 
+(* root_savedlist._branch[x.name] = x : a later item of the same name replaces the earlier one in place *)
+Fixpoint rset (l : list rnode) (s : rnode) : list rnode :=
+  match l with [] => [s] | c :: r => if String.eqb (rname s) (rname c) then s :: r else c :: rset r s end.
+
 Definition is_root_top (tops : list rnode) (i : nat) : bool :=
   match rcls (nth i tops dummy) with CRoot => true | _ => false end.
 
@@ -55,7 +59,7 @@ Definition write_list (c : cfg) (s : slot) (tops : list rnode) (items : list lit
       let '(arrs, dicts) := others items (map rname unrooted) 0 0 in
       let saved := match unrooted, has_other with
                    | [], false => []
-                   | _, _ => [RN CRoot "root_savedlist" 0 0 dicts (unrooted ++ arrs)] end in
+                   | _, _ => [RN CRoot "root_savedlist" 0 0 dicts (fold_left rset (unrooted ++ arrs) [])] end in
       (* one fresh, childless copy of each root that has selected nodes, carrying the root's metadata *)
       let root_copies :=
         fold_left (fun acc it => let r := nth (fst it) tops dummy in
